@@ -84,6 +84,47 @@ pub fn main(args: &[String]) {
                 }
             }
         }
+        Some("probe-composite") => {
+            // diamond chain: glyph i = composite(i+1, i+1), the last one simple
+            let depth: usize = arg_after(args, "--depth").unwrap().parse().unwrap();
+            let fan: usize = arg_after(args, "--fan").unwrap().parse().unwrap();
+            let comps: Vec<Vec<u16>> = (0..=depth).map(|i| if i == depth { vec![] } else { vec![i as u16 + 1; fan] }).collect();
+            let font = crate::vm::composite_font(&comps);
+            let t = std::time::Instant::now();
+            let r = crate::vm::draw_composite(&font, 0);
+            println!("depth {depth} fan {fan}: {r:?} in {:?}", t.elapsed());
+        }
+        Some("graphs") => {
+            let path = arg_after(args, "--cases").expect("--cases");
+            fvcore::tlc_stream(&path, &["GRAPH"], |_, c| {
+                rep.evaluations += 1;
+                let comps: Vec<Vec<u16>> = c["graph"].as_array().unwrap().iter().map(|l| l.as_array().unwrap().iter().map(|x| x.as_i64().unwrap() as u16).collect()).collect();
+                let font = crate::vm::composite_font(&comps);
+                let t = std::time::Instant::now();
+                let r = crate::vm::draw_composite(&font, 0);
+                let ms = t.elapsed().as_millis() as u64;
+                let case = json!({"kind": "composite-case", "graph": if comps.len() <= 8 { json!(comps) } else { json!(format!("{} glyphs, first {:?}", comps.len(), &comps[..2])) }, "model": c["outcome"]});
+                match r {
+                    Err(p) => rep.violation(&format!("loading a composite glyph graph did not return a value: {p}"), case),
+                    Ok((out, moves)) => {
+                        if ms > 5000 {
+                            rep.violation(&format!("loading a composite graph of {} glyphs took {ms} ms", comps.len()), case);
+                        }
+                        let real = if out == "ok" { "ok" } else if out == "absent" { "absent" } else { "error" };
+                        let agree = (c["outcome"] == "ok") == (real == "ok");
+                        if !agree {
+                            rep.add("outcome_differs_from_model", 1);
+                        }
+                        ev.push(json!({"op": "graph", "model": c["outcome"], "real": real, "moves": moves, "leaves": c["leaves"], "ms": ms, "agree": agree}));
+                        rep.distinct += 1;
+                    }
+                }
+            });
+        }
+        Some("vm") => {
+            let path = arg_after(args, "--programs").expect("--programs");
+            crate::vm::replay(&path, &mut ev, &mut rep);
+        }
         _ => {
             eprintln!("usage: fv-total c02 corpus --seed N --mutations K --out t.ndjson");
             std::process::exit(2)
